@@ -56,7 +56,7 @@ func (g *G) deepString() string {
 	return s
 }
 
-var unicodePool = []rune{'a', 'é', 'ß', '中', '😀', 0xFFFD, 0xFFFF, 0x10000, 0x10FFFF, 0x7F, 0x80, 0x00, 0x1F, ' ', '\t', '\n', '\\', '\'', '"', '$', '@', '.', '[', ']', '(', ')', '*', '?', '/'}
+var unicodePool = []rune{'a', 'é', 'ß', '中', '😀', 0xFFFD, 0xFFFF, 0x10000, 0x10FFFF, 0x7F, 0x80, 0x00, 0x1F, ' ', '\t', '\n', '\\', '\'', '"', '$', '@', '.', '[', ']', '(', ')', '*', '?', '/', '%', 0xFEFF}
 
 // mutate applies n character- or token-level edits.
 func (g *G) mutate(s string, n int) string {
